@@ -440,7 +440,10 @@ def _show(v):
 
 def check_events(events, pre, post, writes, rec, counters, suppressed=False,
                  below_only=None):
-  """Judges the events of one call. Returns [(clause, detail)].
+  """Judges the events of one call.
+
+  Returns [(clause, detail, mechanism or None)]; a mechanism is given when the
+  class of input, not the operation, decides (a dict key with path syntax).
 
   events: [(receiver or Callback, kind, payload)] in delivery order.
   below_only: the node `rebind(notify_parents=False)` was called on — its
@@ -451,15 +454,20 @@ def check_events(events, pre, post, writes, rec, counters, suppressed=False,
   for who, kind, payload in events:
     if kind == 'cb':
       node = resolve_callback_receiver(payload)
-      if node is None:
-        cands = [e[0] for e in rec.known.values() if e[1] is who]
-        if len(cands) == 1:
-          node = cands[0]
+      e = rec.known.get(id(node)) if node is not None else None
+      if node is None or (e is not None and e[0] is node and
+                          e[1] is not UNKNOWN and e[1] is not who):
+        # The payload does not lead to a node that can own this callback
+        # (e.g. a relative path with too many elements): fall back to the
+        # node the callback was given to, when there is exactly one.
+        cands = [x[0] for x in rec.known.values() if x[1] is who]
+        node = cands[0] if len(cands) == 1 else None
+        counters['callback_receiver_by_registry'] += 1
       if node is None:
         counters['callback_receiver_unresolved'] += 1
         problems.append(('payload-target',
                          f'{who!r} fired with {len(payload)} update(s) whose '
-                         'target/relative path do not lead to one receiver'))
+                         'target/relative path do not lead to one receiver', None))
         continue
       e = rec.known.get(id(node))
       if e is not None and e[0] is node and e[1] is not who:
@@ -487,7 +495,8 @@ def check_events(events, pre, post, writes, rec, counters, suppressed=False,
       problems.append((
           'event-while-suppressed',
           f'{len(seq)} event(s) delivered, first to '
-          f'{type(seq[0][0].node).__name__} at root{seq[0][0].ridx}{list(seq[0][0].keys)}'))
+          f'{type(seq[0][0].node).__name__} at root{seq[0][0].ridx}{list(seq[0][0].keys)}',
+          None))
     return problems
 
   by_recv = {}
@@ -529,17 +538,17 @@ def check_events(events, pre, post, writes, rec, counters, suppressed=False,
     where = f'{type(info.node).__name__} at root{info.ridx}{list(info.keys)}'
     counters['event_receiver_checks'] += 1
     if len(got) > 1:
-      problems.append(('multi-event', f'{where} received {len(got)} events in one call'))
+      problems.append(('multi-event', f'{where} received {len(got)} events in one call', None))
     if not got and must_event and sub is not UNKNOWN:
       counters['expected_event_missing'] += 1
       problems.append(('missing-event',
                        f'{where} ({sub}) received no event; changed below it: '
                        f'{[list(k) for k in list(must)[:6]]}'
-                       f'{" + list " + str(loose_prefixes) if loose_changed else ""}'))
+                       f'{" + list " + str(loose_prefixes) if loose_changed else ""}', None))
     if got and not may_event:
       problems.append(('unexpected-event',
                        f'{where} received an event but nothing was written below '
-                       f'it (payload keys {[list(k) for _, _, p in got for k in (p or {})][:6]})'))
+                       f'it (payload keys {[list(k) for _, _, p in got for k in (p or {})][:6]})', None))
       continue
     if got:
       counters['events_expected_and_delivered'] += 1
@@ -554,7 +563,7 @@ def check_events(events, pre, post, writes, rec, counters, suppressed=False,
       continue
     if conflict is not None:
       problems.append(('payload-values', f'{where}: key {list(conflict)} reported '
-                       'twice with different values'))
+                       'twice with different values', None))
     bad_keys, bad_vals = [], []
     present = set()
     for k, (old, new) in merged.items():
@@ -585,12 +594,22 @@ def check_events(events, pre, post, writes, rec, counters, suppressed=False,
     for k in must:
       if k not in present:
         bad_keys.append(f'absent {list(k)}')
+    # A written dict key that itself contains key-path syntax ('a.b', 'k[1]'):
+    # one class of input, whatever the operation and whichever way the
+    # payload comes out wrong (split key, collision with a real path).
+    syntax = any(isinstance(k[-1], str) and any(ch in k[-1] for ch in '.[]')
+                 for k in list(must) + list(opt))
+    if syntax and (bad_keys or bad_vals):
+      problems.append(('payload-keys', f'{where}: {(bad_keys + bad_vals)[:6]}; '
+                       f'expected {[list(k) for k in must][:8]}',
+                       'dict-key-with-path-syntax'))
+      continue
     if bad_keys:
       problems.append(('payload-keys', f'{where}: {bad_keys[:6]}; expected '
                        f'{[list(k) for k in must][:8]} (+optional '
-                       f'{[list(k) for k in opt][:4]})'))
+                       f'{[list(k) for k in opt][:4]})', None))
     if bad_vals:
-      problems.append(('payload-values', f'{where}: {bad_vals[:4]}'))
+      problems.append(('payload-values', f'{where}: {bad_vals[:4]}', None))
 
   # Children before parents (first event of every receiver; a receiver that
   # is notified twice is reported as multi-event above).
@@ -609,5 +628,5 @@ def check_events(events, pre, post, writes, rec, counters, suppressed=False,
         problems.append((
             'parent-before-child',
             f'{type(a.node).__name__} at root{a.ridx}{list(a.keys)} was notified '
-            f'before its descendant at {list(b.keys)}'))
+            f'before its descendant at {list(b.keys)}', None))
   return problems
